@@ -1,5 +1,6 @@
 """C09  Each JFA training phase is exact EM: its marginal likelihood never decreases."""
 import copy
+import dask
 
 import numpy as np
 
@@ -183,6 +184,19 @@ def run(chk):
             prev = cur
         lx = m.finalize_u(X, y, per, ly)
         xss = [np.asarray(lx[k]) for k in range(K)]
+        # the hand-over of the point estimates is the same when the statistics come per class as Dask delayed lists (the layout the bag path builds)
+        if i % 2 == 0:
+            with dask.config.set(scheduler="synchronous"):
+                X_d = [dask.delayed(list)(list(Xk)) for Xk in classes]
+                y_d = [np.full(len(Xk), k) for k, Xk in enumerate(classes)]
+                ly_d = m.finalize_v(X_d, y_d, per, n_acc, f_acc)
+                lx_d = m.finalize_u(X_d, y_d, per, ly_d)
+            chk.count(1, key=("hand-over, per-class delayed lists",))
+            if not all(np.allclose(np.asarray(ly_d[k], dtype=float), ys[k], rtol=1e-9, atol=1e-12) for k in range(K)):
+                chk.fail("finalize_v on per-class Dask delayed lists does not return the E[y] it returns on the list", dict(ctx, phase="V->U hand-over"))
+            elif not all(np.allclose(np.asarray(lx_d[k], dtype=float), xss[k], rtol=1e-9, atol=1e-12) for k in range(K)):
+                chk.fail("finalize_u on per-class Dask delayed lists does not return the E[x] of the U-phase model (V, E[y] held fixed) that it returns on the list",
+                         dict(ctx, phase="U->D hand-over", got=[hexlist(a) for a in lx_d], want=[hexlist(a) for a in xss]))
         prev = phase_d_marginal(m, classes, ys, xss)
         traj["D"].append(prev)
         per_class_equals_whole("D", lambda mm: mm.e_step_d(X, y, per, lx, ly, n_acc, f_acc),
@@ -213,6 +227,18 @@ def run(chk):
             chk.fail("U/V/D do not keep the shapes (C*D, rank) / (C*D,)", ctx)
         if not all(np.all(np.isfinite(np.asarray(a))) for a in (mf.U, mf.V, mf.D)):
             chk.fail("JFA training produced non-finite U/V/D", ctx)
+        if i % 3 == 0:
+            # the whole three-phase training from per-class delayed lists gives the same U, V, D
+            with dask.config.set(scheduler="synchronous"):
+                mfd = copy.deepcopy(m0)
+                mfd.fit([dask.delayed(list)(list(Xk)) for Xk in classes], [np.full(len(Xk), k) for k, Xk in enumerate(classes)])
+            chk.count(1, key=("fit, per-class delayed lists",))
+            for nm_ in ("V", "U", "D"):
+                a_, b_ = np.asarray(getattr(mfd, nm_), dtype=float), np.asarray(getattr(mf, nm_), dtype=float)
+                if not np.allclose(a_, b_, rtol=1e-6, atol=1e-8 * (1 + np.abs(b_).max())):
+                    chk.fail("JFA training from per-class Dask delayed lists gives another %s than from the list (phase order V, U, D: the first differing matrix names the broken hand-over)" % nm_,
+                             dict(ctx, matrix=nm_, got=hexlist(a_), want=hexlist(b_)))
+                    break
         sc = max(1.0, float(np.abs(mf.U).max()), float(np.abs(mf.V).max()))
         terms.append("{| ft_u := %s; ft_f := %s; ft_rU := %s; ft_rV := %s; ft_D := %s; ft_iters := %s; ft_classes := [%s]; ft_rtol := %s; ft_atol := %s; ft_U := %s; ft_V := %s; ft_Dv := %s |}" % (
             fa.ubm_term(ubm), fa.fa_term(m0, "jfa"), cq.nat(rU), cq.nat(rV), cq.nat(D), cq.nat(iters),
